@@ -28,12 +28,17 @@ class BabelMakoExtractor(MessageExtractor):
 
     def process_python(self, code, code_lineno, translator_strings):
         comment_tags = self.config["comment-tags"]
+        options = self.options
+        if self.config["encoding"]:
+            # extract_nodes encoded the code with this codec (it may have been
+            # configured as ``input_encoding``); Babel has to decode with it
+            options = dict(options, encoding=self.config["encoding"])
         for (
             lineno,
             funcname,
             messages,
             python_translator_comments,
-        ) in extract_python(code, self.keywords, comment_tags, self.options):
+        ) in extract_python(code, self.keywords, comment_tags, options):
             yield (
                 code_lineno + (lineno - 1),
                 funcname,
